@@ -58,7 +58,7 @@ package regexp2
 //@ spec func StackAlloc(r *Runner) bool = len(r.runstack) >= 8*r.runtrackcount && len(r.runstack) >= 1 && (len(r.runtrack) >= 8*r.runtrackcount || (r.re.optimizations.MaxBacktrackingStackSize >= 0 && len(r.runtrack) == r.re.optimizations.MaxBacktrackingStackSize))
 
 // Package-level error values are initialised non-nil at package init and never reassigned (trusted).
-//@ axiom errvals: ErrBacktrackingStackLimit != nil
+//@ axiom errvals: ErrBacktrackingStackLimit != nil && errStringStartAtTooLarge != nil && errStringStartAtNotRuneBoundary != nil
 
 // ---------------------------------------------------------------------------------------------
 // C08: rune -> byte offset tables (match.go)
@@ -727,3 +727,73 @@ package regexp2
 //@     invariant forall k int {byteOffsets[k]} :: 0 <= k && k < i ==> byteOffsets[k] == k
 //@     invariant strIdx == RuneStart(s, runeIndex) && $pos == RuneStart(s, runeIndex + 1)
 //@     decreases runeIndex - i
+
+// ---------------------------------------------------------------------------------------------
+// C02: string entry points (regexp.go, stringprefixfilter.go)
+// ---------------------------------------------------------------------------------------------
+
+// AttS(code, s, origin, p): the attempt predicate on the decoded runes of string s (p and origin are rune indices).
+// Bridge (assumed where a decoded slice is handed to run/scan, listed in the evidence): an attempt depends only on
+// the text's contents, so for DecodeOf(r, s): Att(code, r, o, p) == AttS(code, s, o, p).
+//@ ghost func AttS(code *syntax.Code, s string, origin int, p int) bool
+//@ spec func NoMatchBytes(code *syntax.Code, s string, lo int, hi int) bool = forall o int, k int {AttS(code, s, o, k)} :: 0 <= k && k <= RuneCount(s) && lo <= RuneStart(s, k) && RuneStart(s, k) < hi ==> !AttS(code, s, o, k)
+//@ spec func OnBoundary(s string, b int) bool = exists k int :: 0 <= k && k <= RuneCount(s) && RuneStart(s, k) == b
+//@ spec func HasMatchS(code *syntax.Code, s string, origin int, from int) bool = exists p int :: InScanRange(code.RightToLeft, from, RuneCount(s), p) && AttS(code, s, origin, p)
+//@ spec func FirstMatchAtS(code *syntax.Code, s string, origin int, from int, q int) bool = InScanRange(code.RightToLeft, from, RuneCount(s), q) && AttS(code, s, origin, q) &&
+//@     forall p int :: InScanRange(code.RightToLeft, from, RuneCount(s), p) && ite(code.RightToLeft, p > q, p < q) ==> !AttS(code, s, origin, p)
+// Programs for which a prefix filter is installed do not contain \G (newStringPrefixFilter), so their attempts do not
+// depend on the origin (assumed: semantic fact about the interpreter).
+//@ spec func OriginFree(re *Regexp) bool = re.stringPrefixFilter != nil ==> forall s string, o1 int, o2 int, p int {AttS(re.code, s, o1, p), AttS(re.code, s, o2, p)} :: AttS(re.code, s, o1, p) == AttS(re.code, s, o2, p)
+
+// Contract every installed prefix filter is assumed to satisfy (the filters themselves are decided under C03).
+//@ funcspec StringPrefixFilterSpec(input string, startAt int) (candidateByteIndex int, ok bool)
+//@   pure
+//@   requires 0 <= startAt && startAt <= len(input)
+//@   ensures !ok ==> NoMatchBytes(re.code, input, startAt, len(input) + 1)
+//@   ensures ok ==> NoMatchBytes(re.code, input, startAt, candidateByteIndex)
+
+//@ func isStringRuneBoundary(s string, index int) (b bool)
+//@   props C02 C10
+//@   ensures b == OnBoundary(s, index)
+//@   loop 0:
+//@     invariant 0 < index && index < len(s)
+//@     invariant exists k int :: 0 <= k && k <= RuneCount(s) && $pos == RuneStart(s, k) && forall j int :: 0 <= j && j < k ==> RuneStart(s, j) < index
+//@     decreases len(s) - $pos
+
+//@ func (re *Regexp) findStringPrefixCandidate(input string, startAt int) (candidateByteIndex int, ok bool)
+//@   props C02 C03
+//@   call stringPrefixFilter: spec StringPrefixFilterSpec
+//@   requires re != nil && re.code != nil && 0 <= startAt && startAt <= len(input) && OnBoundary(input, startAt)
+//@   ensures[none] !ok ==> NoMatchBytes(re.code, input, startAt, len(input) + 1)
+//@   ensures[cand] ok ==> startAt <= candidateByteIndex && candidateByteIndex <= len(input) && OnBoundary(input, candidateByteIndex) && NoMatchBytes(re.code, input, startAt, candidateByteIndex)
+//@   ensures[nofilter] (re.stringPrefixFilter == nil || (re.options & RightToLeft) != 0) ==> ok && candidateByteIndex == startAt
+
+//@ func (re *Regexp) findStringMatchStart(input string, startAt int) (candidateByteIndex int, ok bool, err error)
+//@   props C02 C10
+//@   requires re != nil && re.code != nil
+//@   ensures[argerr] (err != nil) == (startAt > len(input) || (startAt >= 0 && !OnBoundary(input, startAt)))
+//@   ensures[none] err == nil && !ok ==> NoMatchBytes(re.code, input, StartByte(re, input, startAt), len(input) + 1)
+//@   ensures[cand] err == nil && ok ==> StartByte(re, input, startAt) <= candidateByteIndex && candidateByteIndex <= len(input) && OnBoundary(input, candidateByteIndex) &&
+//@             NoMatchBytes(re.code, input, StartByte(re, input, startAt), candidateByteIndex)
+//@   ensures[nofilter] err == nil && (re.stringPrefixFilter == nil || (re.options & RightToLeft) != 0) ==> ok && candidateByteIndex == StartByte(re, input, startAt)
+//@ spec func StartByte(re *Regexp, input string, startAt int) int = ite(startAt < 0, ite((re.options & RightToLeft) != 0, len(input), 0), startAt)
+
+//@ func (re *Regexp) FindStringMatch(s string) (m *Match, err error)
+//@   props C02 C08 C07
+//@   requires RegexpWF(re) && RegexpFacts(re) && OriginFree(re) && re.runnerPool != nil
+//@   callassume run: DecodeOf(input, s) ==> forall o int, p int {Att(re.code, input, o, p)} :: Att(re.code, input, o, p) == AttS(re.code, s, o, p)
+//@   modifies re.runnerPool, re.replaceCache, objs(Runner), objs(Match), elems(int), elems([]int)
+//@   ensures[errnil] err != nil ==> m == nil
+//@   ensures[found]  err == nil ==> ((m != nil) == HasMatchS(re.code, s, NormStart(re.code.RightToLeft, -1, RuneCount(s)), NormStart(re.code.RightToLeft, -1, RuneCount(s))))
+//@   ensures[first]  err == nil && m != nil ==> FirstMatchAtS(re.code, s, NormStart(re.code.RightToLeft, -1, RuneCount(s)), NormStart(re.code.RightToLeft, -1, RuneCount(s)), MatchPos(m, re.code.RightToLeft))
+//@   ensures[wf]     err == nil && m != nil ==> ReturnedMatch(m, re.code.RightToLeft) && DecodeOf(m.text.runes, s) && m.text.hasStringInput && m.text.input == s
+
+//@ func (re *Regexp) FindStringMatchStartingAt(s string, startAt int) (m *Match, err error)
+//@   props C02 C08 C07
+//@   requires RegexpWF(re) && RegexpFacts(re) && OriginFree(re) && re.runnerPool != nil
+//@   callassume run: DecodeOf(input, s) ==> forall o int, p int {Att(re.code, input, o, p)} :: Att(re.code, input, o, p) == AttS(re.code, s, o, p)
+//@   modifies re.runnerPool, re.replaceCache, objs(Runner), objs(Match), elems(int), elems([]int)
+//@   ensures[errnil] err != nil ==> m == nil
+//@   ensures[argerr] (startAt > len(s) || (startAt >= 0 && !OnBoundary(s, startAt))) ==> err != nil
+//@   ensures[found]  err == nil && startAt >= 0 ==> forall k int :: IsRuneIndexOf(s, startAt, k) && k >= 0 ==> ((m != nil) == HasMatchS(re.code, s, k, k))
+//@   ensures[wf]     err == nil && m != nil ==> ReturnedMatch(m, re.code.RightToLeft) && DecodeOf(m.text.runes, s) && m.text.hasStringInput && m.text.input == s
